@@ -205,9 +205,75 @@ fn rrsig_of(s: &Value, signature: &[u8]) -> Rrsig<Bytes, SName> {
     .expect("rrsig")
 }
 
+/// One RRset signed with a real key of one of the backend's algorithms
+/// (obtained directly or through the BIND private-key format) and put to
+/// verify_signed_data: under the key, under another key of the algorithm,
+/// and with key and RRSIG relabelled as the sibling algorithm.
+#[allow(clippy::too_many_arguments)]
+fn keysign_event(w: &mut TraceWriter, rng: &mut Rng, reals: &[realkeys::RealKey], others: &[realkeys::RealKey],
+                 rrs: &Value, recs: &[SRecord], key_owner: &[Vec<u8>], inc: [u8; 4], exp: [u8; 4], turn: u64) {
+    use domain::crypto::sign::SignRaw;
+    use domain::dnssec::validator::base::DnskeyExt;
+    use domain::rdata::Dnskey;
+    let real = &reals[(turn as usize) % reals.len()];
+    let route = if rng.chance(1, 2) { "bind" } else { "direct" };
+    let flags = *rng.pick(&[256u16, 257, 0, 385]);
+    let made_from = real.dnskey(flags);
+    let (inc_t, exp_t) = (Timestamp::from(u32::from_be_bytes(inc)), Timestamp::from(u32::from_be_bytes(exp)));
+    let r = catch_unwind(AssertUnwindSafe(|| -> Result<Value, String> {
+        let pair = real.pair(route, flags)?;
+        let secret = if route == "bind" { &real.bind } else { &real.direct };
+        let probe = pair.sign_raw(b"probe").map_err(|e| format!("{e}"))?;
+        let probe_alg = probe.algorithm().to_int();
+        let probe_len = probe.as_ref().len();
+        let boxed: Box<[u8]> = probe.into();
+        if boxed.len() != probe_len {
+            return Err("Signature into Box<[u8]> changed the length".into());
+        }
+        let algs = json!({"pair": pair.algorithm().to_int(), "secret": secret.algorithm().to_int(), "sig": probe_alg});
+        let key = pair.dnskey();
+        let sk = SigningKey::new(name_of(&jlabels(key_owner)), flags, pair);
+        let rrset = Rrset::new_from_owned(recs).map_err(|e| format!("{e}"))?;
+        let rr = sign_rrset(&sk, &rrset, inc_t, exp_t).map_err(|e| format!("{e}"))?;
+        let mut buf: Vec<u8> = vec![];
+        rr.data().signed_data(&mut buf, &mut recs.to_vec()[..]).map_err(|_| "signed_data")?;
+        let verify = rr.data().verify_signed_data(&key, &buf).is_ok();
+        // another key of the same algorithm
+        let other = others.iter().find(|o| o.alg == real.alg).map(|o| o.dnskey(flags));
+        let verify_other = other.as_ref().map(|o| rr.data().verify_signed_data(o, &buf).is_ok());
+        // key and RRSIG both relabelled as the sibling algorithm
+        let sib = domain::base::iana::SecurityAlgorithm::from_int(match real.alg {
+            8 => 10, 10 => 8, 13 => 14, 14 => 13, 5 => 7, 7 => 5, _ => 13 });
+        let skey = Dnskey::new(flags, 3, sib, key.public_key().clone()).map_err(|e| format!("{e}"))?;
+        let mut f = sig_fields(rr.data());
+        f["alg"] = json!(sib.to_int());
+        let ssig = rrsig_of(&f, rr.data().signature());
+        let mut sbuf: Vec<u8> = vec![];
+        ssig.signed_data(&mut sbuf, &mut recs.to_vec()[..]).map_err(|_| "signed_data")?;
+        let verify_sibling = ssig.verify_signed_data(&skey, &sbuf).is_ok();
+        Ok(json!({"ev": "keysign", "route": route, "key": realkeys::jkey(&key), "made_from": realkeys::jkey(&made_from),
+                  "other": other.as_ref().map(realkeys::jkey), "keyOwner": jlabels(key_owner),
+                  "inc": jbytes(&inc), "exp": jbytes(&exp), "rrs": rrs, "algs": algs,
+                  "res": {"sig": sig_fields(rr.data()), "buf": jbytes(&buf), "siglen": rr.data().signature().len(),
+                          "keysize": key.key_size().map(|n| n as i64).unwrap_or(-1),
+                          "verify": verify, "verify_other": verify_other, "verify_sibling": verify_sibling}}))
+    }));
+    match r {
+        Ok(Ok(ev)) => w.event(ev),
+        Ok(Err(e)) => w.event(json!({"ev": "keysign_error", "alg": real.alg, "route": route, "err": e})),
+        Err(_) => w.event(json!({"ev": "panic", "in": "keysign", "alg": real.alg, "rrs": rrs})),
+    }
+}
+
 fn record_rrsig(out: &str, seed: u64, n: u64) {
     let mut w = TraceWriter::create(out);
     let mut rng = Rng::new(seed);
+    // two independent sets of real keys (the second: "another key of the algorithm")
+    let load = || realkeys::all().unwrap_or_else(|e| {
+        eprintln!("record_dnssec: no real keys: {e}");
+        std::process::exit(2)
+    });
+    let (reals, others) = (load(), load());
     let mut scratch: Vec<u8> = vec![];
     let mut done = 0;
     while done < n {
@@ -217,6 +283,19 @@ fn record_rrsig(out: &str, seed: u64, n: u64) {
         let mut owner = name(&mut rng, 4);
         if rng.chance(1, 4) {
             owner.insert(0, vec![b'*']);
+        }
+        // only the one-octet label "*" is the wildcard label
+        if rng.chance(1, 8) {
+            let mut l = if rng.chance(1, 3) { vec![] } else { label(&mut rng) };
+            l.truncate(5);
+            l.insert(0, b'*');
+            if rng.chance(1, 4) {
+                l.push(b'*');
+            }
+            if l.len() == 1 {
+                l.push(b'*');
+            }
+            owner.insert(0, l);
         }
         // an asterisk label that is not the leftmost label is an ordinary label
         if !owner.is_empty() && rng.chance(1, 5) {
@@ -321,6 +400,9 @@ fn record_rrsig(out: &str, seed: u64, n: u64) {
                        "res": {"sig0": sig0, "buf": jbytes(&buf), "bufs_in": bufs_in,
                                "last_ok": *oks.last().unwrap_or(&false)}}));
         done += 1;
+        if done % 4 == 0 {
+            keysign_event(&mut w, &mut rng, &reals, &others, &rrs, &recs, &key_owner, inc, exp, done / 4);
+        }
         // ---- resolver side
         for _ in 0..2 {
             let mut cur = rrs.clone();
